@@ -91,6 +91,19 @@ theorem chain_lookup_prefix_collision :
     ∃ (s : State), Inv s ∧ ∃ x ∈ validatorsByChain s [0], aget s.vals x = none :=
   ⟨Ex.s0, Ex.inv_s0, [1, 2], by decide, by decide⟩
 
+/-- a node with the 2-byte address `07 08` stakes for the 1-byte identifier `21` -/
+def shortIdOps : List Op :=
+  [.credit [7, 8] 50000000, .stake 3 ⟨[7, 8], [7, 7], [[0x21]], 20000000, [], [7, 8], []⟩ [7, 8]]
+
+/-- The converse direction: the key `0x22 ‖ 21 ‖ 07 08` of a node staked for the 1-byte identifier `21` is also a
+key under the prefix of the 2-byte identifier `21 07` (identifier ‖ first address byte).  No record declares
+`21 07`, yet the lookup for it returns one entry, the 1-byte tail `08` of the address (19 bytes for real 20-byte
+addresses), which names no record. -/
+theorem chain_lookup_prefix_collision_converse :
+    ∃ (s : State), Inv s ∧ (∀ p ∈ s.vals, [0x21, 7] ∉ p.2.chains) ∧
+      validatorsByChain s [0x21, 7] = [[8]] ∧ aget s.vals [8] = none :=
+  ⟨run { params := Ex.p0 } shortIdOps, inv_run (inv_empty _) _ (by decide), by decide, by decide, by decide⟩
+
 example : Ex.s0.stakedIdx = [(25, Ex.C), (30, Ex.B), (20, Ex.A)] ∧
     Ex.s0.chainIdx = [([0, 2], Ex.C), ([0, 2], Ex.B), ([0, 1], Ex.B), ([0, 1], Ex.A)] := by decide
 
